@@ -331,40 +331,52 @@ def run(ctx):
                     workers=4, allow_violation=True, coverage=False)
         if "MechRefines" not in r.violated:
             raise MachineryError("self-test failed: MechRefines not violated by the deviating mechanism (%s)" % what)
-    # 2. export every case (spec -> code)
-    r2 = ctx.tlc("ArrayMatchMC.tla", what="export cases",
-                 cfg_text=cfg(constants=dict(B["export"], **dict(fixed, DoExport=True)), next_="NextExport",
-                              constraints=["Export"]), workers=1, coverage=False, timeout=3000)
-    cases = r2.records.get("CASE", [])
-    if not cases or r2.garbled:
-        raise MachineryError("no cases exported / garbled export (%d)" % r2.garbled)
-    nm = sum(1 for c in cases if c["kind"] == "match")
-    if nm == 0 or nm == len(cases):
-        raise MachineryError("export lacks match or dedup cases")
+    # 2. export every case (spec -> code), replay it, judge the recorded observations (code -> spec);
+    #    two exports (match pairs / de-duplication pairs) processed in chunks to bound memory
     K = {"match": max(B["export"]["A2Vals"]), "dedup": max(B["export"]["DVals"])}
-    jobs = [(i, c, K[c["kind"]], reals_for(i, B["nreal"])) for i, c in enumerate(cases, 1)]
-    ctx.log("replaying %d exported cases x %d realisations" % (len(jobs), B["nreal"]))
-    recs = pmap(run_case, jobs)
-    ncalls = 0
-    for r in recs:
-        ctx.count(r["c"])
-        ncalls += r["ncalls"]
-    ctx.evaluations += ncalls - len(recs)
-    for r in recs[:: max(1, len(recs) // 5)][:5]:
-        ctx.sample({"case": r["c"], "realisations": r["reals"], "observed": r["obs"][:3]})
-    judge(ctx, recs, "judge replayed cases (ArrayMatchTrace)")
+    state = dict(nid=0, ncalls=0, frame_bad=0, probe=None, dprobe=None, exported=0)
+
+    def process(jobs, what):
+        for b0 in range(0, len(jobs), 200000):
+            recs = pmap(run_case, jobs[b0:b0 + 200000])
+            for r in recs:
+                ctx.count(r["c"])
+                state["ncalls"] += r["ncalls"]
+                state["frame_bad"] += r["frame_bad"]
+            ctx.evaluations += sum(r["ncalls"] - 1 for r in recs)
+            for r in recs[:: max(1, len(recs) // 3)][:3]:
+                ctx.sample({"case": r["c"], "realisations": r["reals"], "observed": r["obs"][:3]}, cap=8)
+            if state["probe"] is None:
+                state["probe"] = next((r for r in recs if r["c"]["kind"] == "match" and r["obs"][0]["err"] == "none"
+                                       and len(r["obs"][0]["i2"]) >= 2), None)
+            if state["dprobe"] is None:
+                state["dprobe"] = next((r for r in recs if r["c"]["kind"] == "dedup" and len(set(r["c"]["a1"])) >= 2
+                                        and r["c"]["a1"][0] == min(r["c"]["a1"])), None)
+            judge(ctx, recs, what)
+
+    for kind, off in (("match", dict(MaxLenD=0)), ("dedup", dict(MaxLen1=0))):
+        r2 = ctx.tlc("ArrayMatchMC.tla", what="export %s cases" % kind,
+                     cfg_text=cfg(constants=dict(B["export"], **dict(fixed, DoExport=True, **off)), next_="NextExport",
+                                  constraints=["Export"]), workers=1, coverage=False, timeout=3000)
+        cases = r2.records.get("CASE", [])
+        if not cases or r2.garbled or any(c["kind"] != kind for c in cases):
+            raise MachineryError("export of %s cases failed (%d cases, %d garbled)" % (kind, len(cases), r2.garbled))
+        jobs = [(state["nid"] + i, c, K[kind], reals_for(i, B["nreal"])) for i, c in enumerate(cases, 1)]
+        state["nid"] += len(jobs)
+        state["exported"] += len(jobs)
+        del cases, r2
+        ctx.log("replaying %d exported %s cases x %d realisations" % (len(jobs), kind, B["nreal"]))
+        process(jobs, "judge replayed %s cases (ArrayMatchTrace)" % kind)
+        del jobs
     # 3. larger seeded cases, code -> spec
     ns, max1, max2 = B["seeded"]
-    rrecs = pmap(run_case, seeded_cases(random.Random(ctx.seed), ns, max1, max2, len(recs) + 1))
-    for r in rrecs:
-        ctx.count(r["c"])
-        ctx.evaluations += r["ncalls"] - 1
-    judge(ctx, rrecs, "judge seeded larger cases (ArrayMatchTrace)")
-    # 4. binding self-test: corrupted observations must be rejected, the untouched one accepted
-    probe = next(r for r in recs if r["c"]["kind"] == "match" and len(r["obs"][0]["i2"]) >= 2 and r["obs"][0]["err"] == "none")
+    process(seeded_cases(random.Random(ctx.seed), ns, max1, max2, state["nid"] + 1), "judge seeded larger cases (ArrayMatchTrace)")
+    # 4. binding self-test: corrupted observations must be rejected, the untouched ones accepted
+    probe, dprobe = state["probe"], state["dprobe"]
+    if probe is None or dprobe is None:
+        raise MachineryError("no probe record for the binding self-test")
     bad1 = dict(probe["obs"][0]); bad1["i2"] = list(reversed(bad1["i2"])); bad1["i1"] = list(reversed(bad1["i1"]))
     bad2 = dict(probe["obs"][0]); bad2["i2"] = bad2["i2"][:-1]; bad2["i1"] = bad2["i1"][:-1]
-    dprobe = next(r for r in recs if r["c"]["kind"] == "dedup" and len(set(r["c"]["a1"])) >= 2 and r["c"]["a1"][0] == min(r["c"]["a1"]))
     good3 = next(o for o in dprobe["obs"] if o["fn"] == "rem_dup")
     bad3 = dict(good3); bad3["i1"] = bad3["i1"] + [bad3["i1"][0]]
     saved = ctx.traces
@@ -376,10 +388,10 @@ def run(ctx):
     ctx.traces = saved
     want = {1: [[1, "match", "not_ordered_by_second_array"]], 3: [[1, "match", "matching_element_missing"]],
             4: [[1, "rem_dup", "not_one_index_per_value"]]}
-    got = {k: v for k, v in rej.items()}
-    if any(got.get(k) != v for k, v in want.items()) or 2 in got or 5 in got:
-        raise MachineryError("binding self-test failed: %s" % got)
-    frame_bad = sum(r["frame_bad"] for r in recs) + sum(r["frame_bad"] for r in rrecs)
+    # (records 2 and 5 are the untouched observations: rejected only if the real code is wrong there)
+    if any(rej.get(k) != v for k, v in want.items()):
+        raise MachineryError("binding self-test failed: %s" % rej)
+    frame_bad, ncalls = state["frame_bad"], state["ncalls"]
     E = B["export"]
     ctx.rule = ("every first array of length 1..%d over %d values (repeats included: rejected) x every second array of length "
                 "1..%d over %d values extending below and above (length 1..%d when a1 has repeats); every array of length 1..%d "
@@ -391,7 +403,7 @@ def run(ctx):
                  len(E["FVals"]), B["nreal"], len(RNAMES), ", ".join(RNAMES), ns, max1, max2))
     ctx.exhaustive = True
     ctx.note(bounds={t: {k: sorted(v) if isinstance(v, set) else v for k, v in B[t].items()} for t in ("export", "mech")},
-             exported_cases=len(cases), real_calls=ncalls, realisations=RNAMES,
+             exported_cases=state["exported"], real_calls=ncalls, realisations=RNAMES,
              arguments_modified_by_calls=frame_bad)
     ctx.assumptions = ["abstract values are realised by strictly increasing injections (checked against numpy's own ordering at start): "
                        "match/unique/rem_dup depend on order and equality only",
